@@ -1250,6 +1250,9 @@ func (self *Aof) LoadAndInit() error {
 	}
 	self.slock.Log().Infof("Aof loaded files %v", aofFilenames)
 
+	if len(appendFiles) > 0 {
+		self.truncateIncompleteTail(fmt.Sprintf("%s.%d", "append.aof", self.aofFileIndex))
+	}
 	self.aofFile = NewAofFile(self, filepath.Join(self.dataDir, fmt.Sprintf("%s.%d", "append.aof", self.aofFileIndex)), os.O_WRONLY, int(Config.AofFileBufferSize))
 	err = self.aofFile.Open()
 	if err != nil {
@@ -1265,6 +1268,37 @@ func (self *Aof) LoadAndInit() error {
 	self.inited = true
 	self.slock.Log().Infof("Aof init finish")
 	return nil
+}
+
+// truncateIncompleteTail cuts an append file and its value file back to the
+// last record that is complete together with its value (a crash can leave a
+// torn record, or a record whose value was not written), so that the records
+// appended from now on stay aligned.
+func (self *Aof) truncateIncompleteTail(filename string) {
+	path := filepath.Join(self.dataDir, filename)
+	aofFile := NewAofFile(self, path, os.O_RDONLY, int(Config.AofFileBufferSize))
+	if aofFile.Open() != nil {
+		return
+	}
+	lock := NewAofLock()
+	size, dataSize := int64(aofFile.size), int64(0)
+	for aofFile.ReadLock(lock) == nil && lock.Decode() == nil {
+		if lock.AofFlag&AOF_FLAG_CONTAINS_DATA != 0 {
+			if aofFile.ReadLockData(lock) != nil {
+				break
+			}
+			dataSize += int64(len(lock.data))
+		}
+		size = int64(aofFile.size)
+	}
+	_ = aofFile.Close()
+	if fileinfo, err := os.Stat(path); err == nil && fileinfo.Size() > size {
+		self.slock.Log().Infof("Aof truncate incomplete tail of %s from %d to %d", filename, fileinfo.Size(), size)
+		_ = os.Truncate(path, size)
+	}
+	if fileinfo, err := os.Stat(path + ".dat"); err == nil && fileinfo.Size() > dataSize {
+		_ = os.Truncate(path+".dat", dataSize)
+	}
 }
 
 func (self *Aof) Load() error {
